@@ -24,6 +24,10 @@ class Degenerate(PathAbort):
     """Path on which a symbolic denominator is zero (IEEE inf/nan territory) - outside the claim."""
 
 
+class OutsideClaim(PathAbort):
+    """The path leaves the part of the input space the property speaks about (stated per harness)."""
+
+
 class Unsupported(PathAbort):
     """The engine met an operation it has no sound model for on this path."""
 
@@ -87,6 +91,7 @@ class Ctx:
         self.fresh = 0
         self.notes = {}          # harness scratch (per path)
         self.unknown_branches = 0
+        self.decided = {}        # id of a decided condition -> (term, decision) on this path
 
     # -- construction helpers
     def fresh_real(self, tag):
@@ -123,6 +128,14 @@ class Ctx:
             return True
         if z3.is_false(cond):
             return False
+        hit = self.decided.get(cond.get_id())
+        if hit is not None and z3.eq(hit[0], cond):
+            return hit[1]           # same condition already decided on this path: implied, no fork
+        d = self._branch(cond)
+        self.decided[cond.get_id()] = (cond, d)
+        return d
+
+    def _branch(self, cond):
         if self.pos < len(self.decisions):
             d = self.decisions[self.pos][0]
             self.pos += 1
